@@ -9,16 +9,44 @@ LEVEL = "exploration"
 N = {"quick": 800, "thorough": 16000}
 RULE = ("Pairs (P, N(P)): P a generated C/C++ library model, N a composition of 1-4 rewrites from the neutral catalog "
         "(function bodies, parameter renames, definition order, moving an interface to another translation unit, blank "
-        "lines shifting every source line, adding/removing static functions and variables, adding unused types, comments); "
+        "lines shifting every source line, adding/removing static functions and variables, adding unused types, comments; a "
+        "quarter of the libraries have `typedef struct {...} X;` / `typedef struct {...} X, Xb;` types); "
         "same compiler and flags; abidiff in both argument orders must exit 0 with empty output. Non-trivial = the rewrite "
         "moves an interface to another TU or shifts lines or reorders definitions; distinct by SHA-1 of the case.")
 ASSUMPTIONS = ["the catalog entries are ABI-neutral by construction of the C/C++ language (no exported declaration changes)"]
 
 
+TWONAMES = "neutral-edit-reported:anonymous-struct-with-two-naming-typedefs"
+
+
+def two_naming_typedefs_only(m, text):
+    """The recorded defect: `typedef struct { ... } X, Xb;` -- the DWARF reader names the anonymous struct after whichever of
+    its typedefs it meets first, so moving / reordering the functions that use X and Xb renames the struct.  Recognised when
+    the model has such a type, the report says nothing but "type name changed from 'X' to 'Xb'" (either direction) under
+    changed functions / variables, and nothing is added, removed or resized."""
+    import re
+    pairs_ = [(t["name"], a) for t in m["types"] if t.get("tdanon") for a in t.get("tdnames", [])]
+    if not pairs_:
+        return False
+    if not re.search(r"Functions changes summary: 0 Removed, \d+ Changed(?: \(\d+ filtered out\))?, 0 Added", text) or \
+            not re.search(r"Variables changes summary: 0 Removed, \d+ Changed(?: \(\d+ filtered out\))?, 0 Added", text):
+        return False
+    renames = re.findall(r"type name changed from '([^']*)' to '([^']*)'", text)
+    if not renames or any((a, b) not in pairs_ and (b, a) not in pairs_ for a, b in renames):
+        return False
+    # a union's change is also shown as its flat representation before / after: the two may differ in the name only
+    for a, b in re.findall(r"type changed from:\n\s*(.*)\n\s*to:\n\s*(.*)", text):
+        if not any(re.sub(r"\b%s\b" % re.escape(x), y, a) == b or re.sub(r"\b%s\b" % re.escape(y), x, a) == b for x, y in pairs_):
+            return False
+    deny = ("type size changed", "insertion", "deletion", "offset changed", "enumerator", "alignment changed",
+            "size changed from", "entity changed from")
+    return not any(x in text for x in deny)
+
+
 @st.composite
 def strategy_(draw, tier):
     big = tier == "thorough"
-    m = draw(S.library(lang="any", max_types=10 if big else 7, max_funcs=6, symfeatures=True, tu_private=30))
+    m = draw(S.library(lang="any", max_types=10 if big else 7, max_funcs=6, symfeatures=True, tu_private=30, tdanon=25))
     cfg = draw(S.build_config(kinds=("shared", "shared", "rel")))
     m2, info = MU.neutral(draw, m)
     return {"model": m, "cfg": cfg, "mutant": m2, "info": info}
@@ -41,6 +69,16 @@ def run_case(case, cx):
             cx.sample({"rewrites": info["kinds"], "cfg": cfg, "rc": r.rc, "types.h": M.render_header(m)[:500]})
         if cbuild.crashed(r):
             cx.violation("crash:" + cbuild.crash_key(r), r.brief())
+            return
+        if r.rc == 0 and r.out.strip() and "filtered out" in r.text() and any(t.get("tdnames") for t in m["types"]):
+            # the same rename, categorised harmless (HARMLESS_DECL_NAME_CHANGE under a union ...): nothing is listed but the
+            # summary line counts filtered changes; look at what was filtered
+            h = pairs.abidiff(cx, a, b, ["--harmless"])
+            if not cbuild.crashed(h) and two_naming_typedefs_only(m, h.text()):
+                cx.violation(TWONAMES, {"rewrites": info["kinds"], "order": tag, "run": r.brief(), "harmless": h.brief()})
+                return
+        if (r.rc != 0 or r.out.strip()) and two_naming_typedefs_only(m, r.text()):
+            cx.violation(TWONAMES, {"rewrites": info["kinds"], "order": tag, "run": r.brief(), "types.h": M.render_header(m)})
             return
         if r.rc != 0 or r.out.strip():
             cx.violation("neutral-edit-reported", {"rewrites": info["kinds"], "order": tag, "run": r.brief(),
